@@ -7,6 +7,7 @@ package main
 // same null flag and the same value bit for bit; segment time ranges are exact; chunk meta survives marshal/unmarshal.
 
 import (
+	"encoding/binary"
 	"encoding/hex"
 	"fmt"
 	"math"
@@ -31,6 +32,15 @@ type CMJ struct {
 	ChunkLen int         `json:"chunklen"`
 	Trs      [][2]uint64 `json:"trs"`
 	Cols     []CMColJ    `json:"cols"`
+}
+
+// chunk meta as marshalled under chunk-meta-compress-mode = self
+type CMSJ struct {
+	Hex  string   `json:"hex"`
+	Dict []string `json:"dict"` // the column-name dictionary (hex), index order
+	K    int      `json:"k"`    // scale index byte of the time-range list, read from the real bytes
+	Idxs []int    `json:"idxs"` // dictionary index of every column
+	CM   *CMJ     `json:"cm"`   // the chunk meta field by field (statistics blocks as written under mode self)
 }
 
 type ColIn struct {
@@ -214,6 +224,64 @@ func runCol(c *Case) {
 	}
 	if !ch.MetaOK {
 		fail("chunk meta marshal/unmarshal differs")
+	}
+	// the same record's chunk meta in the layout of chunk-meta-compress-mode = self (statistics blocks included)
+	{
+		var sm immutable.VerifChunkMeta
+		var dict []string
+		var same bool
+		immutable.SetChunkMetaCompressMode(immutable.ChunkMetaCompressSelf)
+		p := protect(func() { sm, dict, same, err = immutable.VerifChunkMetaSelf(rec, lim, 1000) })
+		immutable.SetChunkMetaCompressMode(immutable.ChunkMetaCompressNone)
+		if p != "" {
+			c.Panic, c.Oracle = p, "encode-panic"
+			return
+		}
+		if err != nil {
+			c.Oracle, c.EncErr = "encode-error", err.Error()
+			return
+		}
+		if !same {
+			fail("chunk meta (mode self) marshal/unmarshal differs")
+		}
+		cs := &CMSJ{Hex: hex.EncodeToString(sm.Bytes), K: -1}
+		for _, d := range dict {
+			cs.Dict = append(cs.Dict, hex.EncodeToString([]byte(d)))
+		}
+		// scale index byte: after the 8-byte sid and four uvarints
+		pos := 8
+		for i := 0; i < 4 && pos < len(sm.Bytes); i++ {
+			_, w := binary.Uvarint(sm.Bytes[pos:])
+			if w <= 0 {
+				pos = len(sm.Bytes)
+				break
+			}
+			pos += w
+		}
+		if pos < len(sm.Bytes) {
+			cs.K = int(sm.Bytes[pos])
+		}
+		cj := &CMJ{Sid: sm.Sid, Off: uint64(sm.Offset), Size: sm.Size}
+		for _, r := range sm.Ranges {
+			cj.Trs = append(cj.Trs, [2]uint64{uint64(r[0]), uint64(r[1])})
+		}
+		for i := range sm.ColNames {
+			x := CMColJ{N: hex.EncodeToString([]byte(sm.ColNames[i])), Ty: int(sm.ColTypes[i]), Pre: hex.EncodeToString(sm.ColPreAgg[i])}
+			for _, e := range sm.ColSegs[i] {
+				x.Ent = append(x.Ent, [2]uint64{uint64(e[0]), uint64(e[1])})
+			}
+			cj.Cols = append(cj.Cols, x)
+			idx := -1
+			for di, d := range dict {
+				if d == sm.ColNames[i] {
+					idx = di
+					break
+				}
+			}
+			cs.Idxs = append(cs.Idxs, idx)
+		}
+		cs.CM = cj
+		c.CMS = cs
 	}
 	if len(ch.Segments) != len(c.Cols)+1 {
 		fail("column count %d", len(ch.Segments))
